@@ -143,6 +143,6 @@ package abci
 //@ func abciMux.processSystemTx
 //@   props C01
 //@   requires mux != nil && mux.state != nil && mux.state.proposal != nil && ctx != nil && tx != nil
-//@   ensures err == nil ==> old(tx.Nonce) == 0 && old(tx.Fee) == nil && len(old(mux.state.proposal.hash)) > 0 && old(ctx.mode) == api.ContextDeliverTx
+//@   ensures err == nil ==> old(tx.Nonce) == 0 && old(tx.Fee) == nil && len(old(mux.state.proposal.hash)) > 0 && old(api.IsDeliver(ctx))
 //@   ensures err == nil ==> GBytesEqTrue > old(GBytesEqTrue)
 //@   note a system transaction is accepted only in block delivery (never while the proposal is being built), with zero nonce and no fee, and only after the signer-address comparison with the block proposer came out equal
